@@ -307,6 +307,8 @@ struct Ledger {
     /// datagrams put on the wire by the attacker and not yet delivered
     inflight: Vec<(SocketAddr, SocketAddr, Vec<u8>)>,
     injected_delivered: u64,
+    /// TURN server of the run (knob via_turn): its traffic with A is the allocation's own business, not ICE's
+    s_ip: Option<std::net::IpAddr>,
 }
 
 impl Ledger {
@@ -355,6 +357,8 @@ impl Monitor for IceMon {
         let mut l = self.0.lock().unwrap();
         if sh.cur_injected {
             l.inflight.push((from, to, d.to_vec()));
+        } else if l.s_ip.is_some() && (Some(to.ip()) == l.s_ip || Some(from.ip()) == l.s_ip) {
+            toks.push("TURN".into());
         } else if Some(from.ip()) == l.a_ip && v.is_request() {
             let now = sh.now_ms();
             if !l.a_tx.contains_key(&v.tx) {
@@ -371,7 +375,7 @@ impl Monitor for IceMon {
             l.inflight.remove(i);
             l.injected_delivered += 1;
         }
-        if Some(to.ip()) != l.a_ip {
+        if Some(to.ip()) != l.a_ip || (l.s_ip.is_some() && Some(from.ip()) == l.s_ip) {
             return;
         }
         let now = sh.now_ms();
@@ -712,6 +716,10 @@ pub fn generate(prop: &str, seed: u64, idx: u64, tier: Tier) -> Plan {
     let mut rs = Rng::new(mix(mix(seed, idx), 0x7463_7073_6f63_6b));
     if p.knob("srflx", 0) == 0 && p.knob("mux", 0) == 0 && rs.chance(30) {
         p.knobs.insert("via_tcp".into(), 1 + rs.below(2) as i64);
+    } else if p.knob("srflx", 0) == 0 && p.knob("mux", 0) == 0 && rs.chance(20) {
+        // A also holds a TURN allocation (server S played by the harness); the attacker's unauthenticated requests are
+        // sent to the relayed address and reach A wrapped in Data indications on its TURN socket
+        p.knobs.insert("via_turn".into(), 1);
     }
     p
 }
@@ -936,7 +944,40 @@ pub async fn run(ctx: &Ctx) {
     ctx.net.set_monitor(Box::new(IceMon(led.clone())));
 
     let via_tcp = p.knob("via_tcp", 0).clamp(0, 2);
-    let (a, ra) = IceTransportBuilder::new(cfg_tcp(0, mux, p.seed, via_tcp)).role(if role_controlled { IceRole::Controlled } else { IceRole::Controlling }).build();
+    let via_turn = via_tcp == 0 && p.knob("via_turn", 0) == 1;
+    let s_addr: SocketAddr = addr("10.0.0.50", 3478);
+    // the TURN client's own socket address, learnt by the server from the Allocate request
+    let turn_client: Arc<Mutex<Option<SocketAddr>>> = Arc::new(Mutex::new(None));
+    let mut cfg_a = cfg_tcp(0, mux, p.seed, via_tcp);
+    let mut turn_server = None;
+    if via_turn {
+        led.lock().unwrap().s_ip = Some(s_addr.ip());
+        cfg_a.ice_servers = vec![rustrtc::IceServer::new(vec!["turn:10.0.0.50:3478".to_string()]).with_credential("simuser", "simpass")];
+        match ctx.net.bind(s_addr) {
+            Ok(sock) => {
+                let srv = Arc::new(vh::UdpSocket::from_sim(sock));
+                let tc = turn_client.clone();
+                turn_server = Some(tokio::spawn(vh::wrap_task(async move {
+                    use super::hostile_turn as ht;
+                    let mut buf = vec![0u8; 2048];
+                    loop {
+                        let Ok((n, from)) = srv.recv_from(&mut buf).await else { break };
+                        let Some(q) = ht::parse(&buf[..n]) else { continue };
+                        if q.ty & 0x0110 != 0 {
+                            continue; // Send indications: nothing is relayed onwards
+                        }
+                        let stage = if q.ty == 0x0003 && !q.has_user { 0 } else { 1 };
+                        if q.ty == 0x0003 && q.has_user {
+                            *tc.lock().unwrap() = Some(from);
+                        }
+                        let _ = srv.send_to(&ht::genuine(&q, stage), from).await;
+                    }
+                })));
+            }
+            Err(e) => ctx.violate("HARNESS.c06-turn", format!("bind S: {e}")),
+        }
+    }
+    let (a, ra) = IceTransportBuilder::new(cfg_a).role(if role_controlled { IceRole::Controlled } else { IceRole::Controlling }).build();
     let (b, rb) = IceTransportBuilder::new(cfg(1, false, p.seed)).role(if role_controlled { IceRole::Controlling } else { IceRole::Controlled }).build();
     let ta = tokio::spawn(vh::wrap_task(ra));
     let tb = tokio::spawn(vh::wrap_task(rb));
@@ -944,7 +985,10 @@ pub async fn run(ctx: &Ctx) {
     let a_all = a.local_candidates();
     // A's passive ICE-TCP listener (knob via_tcp); B, which has ICE-TCP disabled, is only told A's UDP candidate
     let a_tcp: Option<SocketAddr> = a_all.iter().find(|c| c.transport == "tcp" && c.address.port() != 9).map(|c| c.address);
-    let a_loc: Vec<IceCandidate> = a_all.iter().filter(|c| c.transport != "tcp").cloned().collect();
+    let a_loc: Vec<IceCandidate> = a_all.iter().filter(|c| c.transport != "tcp" && c.typ != rustrtc::transports::ice::IceCandidateType::Relay).cloned().collect();
+    if via_turn && (turn_client.lock().unwrap().is_none() || !a_all.iter().any(|c| c.typ == rustrtc::transports::ice::IceCandidateType::Relay)) {
+        ctx.violate("HARNESS.c06-turn", format!("via_turn but A holds no relay candidate: {:?}", a_all.iter().map(|c| format!("{:?}/{}", c.typ, c.address)).collect::<Vec<_>>()));
+    }
     let b_loc = b.local_candidates();
     if via_tcp != 0 && a_tcp.is_none() {
         ctx.violate("HARNESS.c06-gather", format!("via_tcp={via_tcp} but A gathered no passive TCP candidate: {:?}", a_all.iter().map(|c| format!("{}/{}", c.transport, c.address)).collect::<Vec<_>>()));
@@ -1177,7 +1221,23 @@ pub async fn run(ctx: &Ctx) {
                 // connection to A's passive listener (a new connection, or - every other time - the one opened before)
                 let over_tcp = judged && is_req && op.kind == "req" && a_tcp.is_some() && !j.faults_on_wire;
                 let mut tcp_ok = false;
-                if over_tcp {
+                let over_turn = judged && is_req && op.kind == "req" && via_turn && turn_client.lock().unwrap().is_some();
+                if over_turn {
+                    // the attacker's datagram to the relayed address, as the relay forwards it: a Data indication from S to
+                    // A's TURN socket with XOR-PEER-ADDRESS = the attacker's source and DATA = the request
+                    use super::hostile_turn as ht;
+                    let mut itx = [0u8; 12];
+                    arng.fill(&mut itx);
+                    let ind = ht::stun(0x0017, &itx, &[(0x0012, ht::xor_addr(from)), (0x0013, bytes.clone())]);
+                    let to = turn_client.lock().unwrap().unwrap();
+                    ctx.ev("attack travels through the TURN relay", &format!("peer {from} -> relayed address -> Data indication {s_addr} -> {to}"));
+                    ctx.net.inject(s_addr, to, &ind);
+                    let mut l = led.lock().unwrap();
+                    l.unauth_req_delivered += 1;
+                    l.last_judged_is_req = Some(true);
+                    drop(l);
+                    ctx.stat("probe.unauth_req_over_turn", 1);
+                } else if over_tcp {
                     let reuse = i % 2 == 1 && !m_conns.is_empty();
                     if !reuse {
                         if let Ok(raw) = ctx.net.tcp_connect_from(Some(from.ip()), a_tcp.unwrap()) {
@@ -1206,7 +1266,7 @@ pub async fn run(ctx: &Ctx) {
                 let (others, delivered) = {
                     let l = led.lock().unwrap();
                     let delivered = if over_tcp { tcp_ok } else { l.injected_delivered > inj0 };
-                    (l.deliveries_since(t0 - 500.0).saturating_sub((delivered && !over_tcp) as usize), delivered)
+                    (l.deliveries_since(t0 - 500.0).saturating_sub((delivered && !over_tcp && !over_turn) as usize), delivered)
                 };
                 if !delivered {
                     ctx.violate("HARNESS.c06-inject", format!("attacker packet not delivered within {} ms", lat_ms(1) + settle_ms));
@@ -1293,6 +1353,9 @@ pub async fn run(ctx: &Ctx) {
         ctx.stat("nontrivial", 1);
     }
     drop(m_conns);
+    if let Some(t) = turn_server {
+        t.abort();
+    }
     a.stop();
     b.stop();
     tokio::time::sleep(Duration::from_millis(300)).await;
